@@ -198,8 +198,10 @@ impl Core {
             if let Some(query) = self.iterative_queries.remove(id) {
                 self.cache_iterative_query(&query, closest_nodes);
 
-                should_ping_alleged_new_address =
-                    self.update_address_votes_from_iterative_query(&query);
+                // Keep the address to confirm when a later query of the same batch has nothing new.
+                if let Some(new_address) = self.update_address_votes_from_iterative_query(&query) {
+                    should_ping_alleged_new_address = Some(new_address);
+                }
             };
         }
 
